@@ -20,6 +20,7 @@ pub mod c15;
 pub mod c16;
 pub mod c17;
 pub mod c18;
+pub mod c19;
 pub mod c20;
 
 #[derive(Clone, Copy, PartialEq, Eq, Debug)]
@@ -48,6 +49,7 @@ pub fn run(id: &str, tier: Tier) -> Option<Outcome> {
         "C16" => c16::run(tier),
         "C17" => c17::run(tier),
         "C18" => c18::run(tier),
+        "C19" => c19::run(tier),
         "C20" => c20::run(tier),
         _ => return None,
     })
@@ -67,6 +69,7 @@ pub fn replay(id: &str, replay: &serde_json::Value) -> Option<Vec<crate::mc::Vio
         "C10" => Some(c10::replay(replay)),
         "C11" => Some(c11::replay(replay)),
         "C12" => Some(c12::replay(replay)),
+        "C19" => Some(c19::replay(replay)),
         "C13" => Some(c13::replay(replay)),
         "C14" => Some(c14::replay(replay)),
         "C15" => Some(c15::replay(replay)),
